@@ -19,7 +19,7 @@ package ipfs
 //@   ensures result == nil ==> (exists j Int :: 0 <= j && j < len(i.writeAccess) && (i.writeAccess[j] == id || i.writeAccess[j] == "*"))
 //@   ensures result == nil ==> verifyOK(p, ptr(entry, "entry.Entry").Identity)
 //@   ensures (forall j Int :: 0 <= j && j < len(i.writeAccess) ==> i.writeAccess[j] != id && i.writeAccess[j] != "*") ==> result != nil
-//@   ensures result == nil && (forall j Int :: 0 <= j && j < len(i.writeAccess) ==> i.writeAccess[j] != "*") ==> authorBound(entry)
+//@   ensures @C03 result == nil && (forall j Int :: 0 <= j && j < len(i.writeAccess) ==> i.writeAccess[j] != "*") ==> authorBound(entry)
 //@   modifies nothing
 
 // Save (C14): the saved-parameters address is the content address of the JSON of the write list, a
